@@ -44,6 +44,10 @@ CHECKS = {
          "The bookkeeping of `_valid_to_refs` and `IOManager.ios` is modelled operation by operation and model-checked (complete reachable space for the small instances, all 3-4 operation histories for the full vocabulary) with SpecsEqBoundValues / NoOrphanSpec / LocationsUnique / RejectedLeavesNothing / SanityChecks / SavedSpecsRoundTrip as invariants; random and model-enumerated histories over two models and a base/sub pair of spaces are executed on the real library with real pandas/module values (identified by identity), and TLC judges the projected specs, manager table and bound references after every operation; saved and re-read contents are compared by TLC.", "§4 C18"),
  "C19": ("model_checking", "TLC model check of MxRegistry (System.new_model / rename_model / _rename_samename / close_model / reader transcribed) + trace validation of random and TLC-enumerated histories over several open models",
          "The registry algorithm (auto names, backup renaming with its counter, refused and silent renames, close, read under a taken name) is model-checked exhaustively on small constants with NamesUniqueAndCurrent / HandlesFollow / NoModelDropped / CloseRemovesExactlyOne / Isolation as invariants; every history of the replay configuration and seeded random histories (new/read/rename with and without rename_old/close/edit/evaluate on concurrently open models, one linked by a reference) are executed on the real library and judged by the same module as a trace specification; exact backup names are compared as DRIFT only.", "§4 C19"),
+ "C15": ("translation_validation", "translation validation per generated program: the TLA+ oracle Den(D, node) (MxSem) is the meaning of the source model; the package written by Exporter.export is imported in a subprocess in which modelx cannot be imported, every element is queried there, and TLC (MxExportTrace) judges package value = oracle value, repeated queries stable, cached/uncached packages agree",
+         "Programs of the three worlds (static spaces, inheritance, ItemSpaces incl. nested ones) are decorated over a table of syntactic templates with the same meaning (lambdas, comprehensions, nested functions, names shadowing built-ins, parenthesised names, defaults; literal, pickled and object-valued references in all modes; parameter formulas with defaults), exported, and queried for every cells and argument tuple in a child process without modelx; TLC compares each result with the oracle on the definitions record, with the live model's value, with a second query, and with the package exported under flipped cached flags. No algorithm-layer model: the exporter is validated per program, not modelled.", "§4 C15"),
+ "C20": ("exploration", "TLC model check of MxFormula (the capture pipeline of formula.py / cells.py transcribed over abstract source lines: getsource/BlockFinder, dedent, decorator removal, name and docstring replacement, lambda extraction) over the full product of the layout grammar; every layout TLC enumerates is rendered to real source text / function objects, run through the real library and judged by MxFormulaTrace",
+         "The layout grammar of the quantifier (parameters with defaults/annotations, docstrings, comments in every position, nested defs/lambdas/classes, comprehensions, multi-line expressions and strings, decorators incl. multi-line ones, one-line bodies, arbitrary indentation, lambdas embedded in assignments and calls) is enumerated by TLC as a full product (thorough) or a hash sample (quick); for each layout a scripted history (capture, reference edit, re-creation from source, rename, documentation edits) is executed on real cells and TLC judges NoDecoratorLeft / NameIsCellsName / BodyUntouched / SelfContained / BehavesLikeFunction / ParamsKept / Idempotent / RenameInert / DocInert on the recorded sources, signatures and values. Bounded: one scripted history per layout on the code; free interleavings on the model only.", "§4 C20"),
  "C13": ("model_checking", "trace validation: every handle ever obtained is dead or is the current object at an existing place; no held value or graph node of a non-existing element",
          "The harness keeps a handle to every object it ever saw and probes it after every operation; TLC requires each to be dead (all probes raise DeletedObjectError) or to be the object currently found at the place it reports, which must exist in the definitions; held values and graph nodes must belong to existing elements.", "§4 C13"),
 }
